@@ -11,7 +11,7 @@ use crate::props::{cfg_plain, sweep_frames};
 use crate::wire::*;
 
 pub fn run(rep: &mut Report, thorough: bool) {
-    rep.rule = "per (L4 protocol x IP version x reply kind): one echoed 16-bit request field swept over all 65536 values (so the reply checksum takes every value incl. 0); echo data of every length 0..1472; DNS queries with growing question counts up to the largest that fits a 4096-byte frame; every application reply over both transports and IP versions; every reply re-parsed and re-checksummed by independent code".into();
+    rep.rule = "per (L4 protocol x IP version x reply kind): one echoed 16-bit request field swept over all 65536 values (so the reply checksum takes every value incl. 0); echo data of every length 0..1472; DNS queries with growing question counts up to the largest that fits a 4096-byte frame; every application reply over both transports and IP versions; every reply re-parsed and re-checksummed by independent code; ADDED LATER: requests carrying IPv4 options (IHL 6..15), echo data of every length 0..2100 and jumbo sizes, every pair of L2-L4 header fields over reduced value sets, address alphabets, all four list combinations".into();
     rep.assumptions = vec![
         "over IPv4 a transmitted UDP checksum of 0 is accepted (RFC 768: no checksum)".into(),
         "replies larger than ~16 KiB cannot be elicited with <= 4096-byte input frames; 'up to 64 KiB' in the quantifier is unreachable".into(),
@@ -121,6 +121,20 @@ pub fn run(rep: &mut Report, thorough: bool) {
             };
             let data: Vec<u8> = (0..n).map(|x| (x * 7) as u8).collect();
             flow(i % 2 == 1, 1, 1).icmp_echo(0x1234, 1, &data)
+        });
+        // IPv4 header checksum of the reply through every value: the peer address (the reply's
+        // destination) swept over all 65536 values of its low and of its high half, per reply kind
+        sweep_frames(rep, &cfg, &format!("ip4-header-checksum-{}", tag), "client IPv4 address: low half over all 65536 values x high half {0a00, c0a8, fffe, ffff} (the header word sum runs through every 16-bit value with 1, 2 and 3 carries) x {echo, SYN, UDP STUN}", 65536 * 4 * 3, |i| {
+            let d = unrank(i, &[3, 4, 65536]);
+            let w = d[2] as u16;
+            let hi = [0x0a00u16, 0xc0a8, 0xfffe, 0xffff][d[1] as usize];
+            let mut f = flow4(40000, 3478);
+            f.cip = Ip::V4([(hi >> 8) as u8, hi as u8, (w >> 8) as u8, w as u8]);
+            match d[0] {
+                0 => f.icmp_echo(1, 1, b""),
+                1 => f.tcp(1, 0, F_SYN, b""),
+                _ => f.udp(&stun_magic(&[], &ID12)),
+            }
         });
         // ICMP echo: identifier sweep both versions (checksum of the reply takes every value)
         sweep_frames(rep, &cfg, &format!("echo-id-{}", tag), "echo identifier 0..65535 x {v4,v6}", 65536 * 2, |i| flow(i >= 65536, 1, 1).icmp_echo(i as u16, 1, b"x"));
